@@ -1,4 +1,5 @@
 import Sml.Props.C15
+import Sml.Lemmas.Review2a
 #print axioms Sml.C15.decode_eq
 #print axioms Sml.C15.iter_take_eq
 #print axioms Sml.C15.iter_eq
@@ -9,3 +10,11 @@ import Sml.Props.C15
 #print axioms Sml.C15.buffer_independent
 #print axioms Sml.C15.buffer_independent_final
 #print axioms Sml.C15.reference_buffer_independent
+#print axioms Sml.Dec.pushAll_noOom
+#print axioms Sml.C15.fresh_rel
+#print axioms Sml.C15.buffer_independent_noOom
+#print axioms Sml.C15.first_difference_is_oom
+#print axioms Sml.C15.vec_no_oom
+#print axioms Sml.C15.differ_iff_oom
+#print axioms Sml.C15.first_difference_exists
+#print axioms Sml.C15.reference_buffer_independent_noOom
